@@ -3,7 +3,7 @@
 \* as-built model predicts; the harness replays the disagreeing programs on the code (they must fail there too)
 \* and compares the predicted rows with the code's residual (model drift otherwise).
 CONSTANTS Family = "eqs" Tier = "thorough"
-  DivMapped = FALSE SlicesRangeChecked = FALSE LoopIndexRangeChecked = FALSE PartialSubscriptIsRow = FALSE CallFirstOutput = FALSE StepRangeParsed = FALSE RangeStopExact = FALSE IfStmtSequential = FALSE ExploreOptions = FALSE
+  DivMapped = TRUE SlicesRangeChecked = FALSE LoopIndexRangeChecked = FALSE PartialSubscriptIsRow = FALSE CallFirstOutput = FALSE StepRangeParsed = FALSE RangeStopExact = FALSE IfStmtSequential = FALSE ExploreOptions = FALSE
 INIT Init
 NEXT Next
 INVARIANT WellTyped
